@@ -44,7 +44,8 @@ Value& ABSExpression::value(Context & ctx) const
     if (val.isNull())
       return val;
     Integer l = *val.integer();
-    v = Value(Integer(l < 0 ? -l : l));
+    /* overflow wraps around: abs(INT64_MIN) is INT64_MIN */
+    v = Value(l < 0 ? Integer((uint64_t)0 - (uint64_t)l) : l);
     break;
   }
   case Type::NUMERIC:
